@@ -1531,12 +1531,12 @@ theorem step_schema {K : Kind} {cfg : Cfg} {st : State} {m : Mon} (hi : Inv K cf
               simp only [Bool.and_eq_false_iff, decide_eq_false_iff_not, Bool.not_eq_false'] at hstop'
               rcases hstop' with h | h
               · simp [h]
-              · simp [h]
+              · simp [h, VS_guess hs, VS_guess h2]
             have hrb : rebuilds m (.schema s) = false := by simp [rebuilds, effective]
             have hnb : newBucket m (.schema s) = false := by simp [newBucket, hrb]
             refine flInv_cache (c' := { c with loc := { config := s, fc := some (limOf s) }, remote := c.remote })
               (st' := { st with cache := some { c with loc := { config := s, fc := some (limOf s) }, remote := c.remote } })
-              hi.fl hcache rfl rfl rfl rfl rfl ?_ ?_ ?_ ?_ ?_
+              hi.fl hcache rfl rfl rfl rfl rfl ?_ ?_ ?_ ?_
             · intro r hr; simp only [Mon.next, effective, Bool.false_eq_true, if_false]; exact hi.fl.applied c r hcache hr
             · intro w hw
               simp only [Mon.next, hrb, hnb, hst, Bool.or_self, Bool.false_eq_true, if_false]
@@ -1548,7 +1548,6 @@ theorem step_schema {K : Kind} {cfg : Cfg} {st : State} {m : Mon} (hi : Inv K cf
               have : c0 = c := by rw [hcache] at k1; exact (Option.some.inj k1).symm
               subst this
               exact ⟨g, by rw [hg]; exact k2, k3, k4⟩
-            · simp [Mon.next, hrb, hnb, hst]
             · simp [Mon.next, hrb, hnb, hst]
 
 /-- an effective sync of the remote limiter (reconcile of a global-count schema, or an answer of the schema's type) -/
@@ -1696,7 +1695,6 @@ theorem step_noop {K : Kind} {cfg : Cfg} {st : State} {m : Mon} (hi : Inv K cfg 
       | reconcileCount => simp [Mon.next, hrb, hnb, hst]
       | answer _ _ => simp [Mon.next, hrb, hnb, hst]
       | meter _ => simp [Mon.next, hrb, hnb, hst]
-    · simp [Mon.next, hrb, hnb, hst]
   have hcnt : CntInv st (m.next op (observe cfg st)) := by
     apply cntInv_frame hi.cnt rfl
     · cases op with
@@ -1826,17 +1824,42 @@ theorem rebuilds_eq {K : Kind} {cfg : Cfg} {st : State} {m : Mon} {c : Cache} {s
 theorem wkind_resize (g : GFC) (n b : Int) : GFC.wkind (g.resize n b) = GFC.wkind g := by
   cases g <;> rfl
 
-/-- `FlInv` after an effective sync: a rebuild empties the bucket, resets the token accounting and the counter, and no
-    request counts against the new limiter; a resize keeps everything -/
+/-- the judge's "a NEW limiter object" is the model's: in a reachable state exactly when there was no remote limiter -/
+theorem newBucket_eq {K : Kind} {cfg : Cfg} {st : State} {m : Mon} {c : Cache} {s : Schema} {op : Op} {i : Item}
+    (hi : Inv K cfg st m) (hcache : st.cache = some c) (hsch : m.schema = some s) (heff : effective m op = true)
+    (hitem : syncItem m op = some i) (hT : itemType i = K) :
+    newBucket m op = remoteNewBucket (c.remote.getD {}) s i ∧
+    (remoteNewBucket (c.remote.getD {}) s i = true → c.remote = none) := by
+  have hrb := rebuilds_eq hi hcache hsch heff hitem hT
+  have hc := hi.cache
+  unfold CInv at hc
+  rw [hcache, hsch] at hc
+  obtain ⟨h1, h2, h3, h4, h5⟩ := hc
+  simp only [newBucket, remoteNewBucket, hrb, hitem, hi.prev, observe_wkind, observe_rlim]
+  cases hrm : c.remote with
+  | none =>
+    have hg : gfcOf st = none := by simp [gfcOf, hcache, hrm]
+    simp [hg]
+  | some r =>
+    obtain ⟨i0, ap0, g, q1, q2, q3, q4, q5, q6, q7⟩ := h5 r hrm
+    have hg : gfcOf st = some g := by simp [gfcOf, hcache, hrm, q3]
+    have hwk : GFC.wkind g ≠ 0 := by cases g <;> simp [GFC.wkind]
+    have hk : g.inner.kind = itemType i := by rw [q7, hT]
+    simp [hg, q3, hwk, hk]
+
+/-- `FlInv` after an effective sync: a rebuild resets the token accounting and the counter but KEEPS the limiter and the
+    requests it counts; only a remote wrapper that did not exist starts with an empty bucket, and no request in flight
+    holds it; a resize keeps everything -/
 theorem flInv_sync {K : Kind} {cfg : Cfg} {st : State} {m : Mon} {c : Cache} {s : Schema} {op : Op} {i : Item}
     {r' : Remote} {cnt' : Counter} (o : Obs) (hi : Inv K cfg st m) (hcache : st.cache = some c)
     (hsch : m.schema = some s) (heff : effective m op = true) (hitem : syncItem m op = some i) (hT : itemType i = K)
     (hop : op = .reconcileCount ∨ ∃ item, op = .answer true item)
     (hrs : remoteSync (c.remote.getD {}) s i = .ok r') (happ : r'.appliedConfig = some (boundByGlobalLimit s i))
     (hcnt : cnt' = if remoteRecreates (c.remote.getD {}) s i then { event := false, lastSync := unixS st.clock } else c.cnt)
-    (fl' : Flight) (hfl' : fl' = flightAfterSync c.fl c.remote.isNone (remoteRecreates (c.remote.getD {}) s i)) :
+    (fl' : Flight) (hfl' : fl' = flightAfterSync c.fl c.remote.isNone (remoteNewBucket (c.remote.getD {}) s i)) :
     FlInv cfg { st with cache := some { c with remote := some r', cnt := cnt', fl := fl' } } (m.next op o) := by
   have hrb := rebuilds_eq hi hcache hsch heff hitem hT
+  obtain ⟨hnb, hnone⟩ := newBucket_eq hi hcache hsch heff hitem hT
   have hst : stopsRemote m op = false := by rcases hop with rfl | ⟨item, rfl⟩ <;> rfl
   have hc := hi.cache
   unfold CInv at hc
@@ -1852,76 +1875,104 @@ theorem flInv_sync {K : Kind} {cfg : Cfg} {st : State} {m : Mon} {c : Cache} {s 
   have mapp : (m.next op o).applied = some (boundByGlobalLimit s i) := by
     rcases hop with rfl | ⟨item, rfl⟩ <;> simp [Mon.next, heff, hitem, hsch]
   have mowed : (m.next op o).owed = if remoteRecreates (c.remote.getD {}) s i then 0 else m.owed := by
-    rcases hop with rfl | ⟨item, rfl⟩ <;> simp [Mon.next, hrb, hnb, hst] <;> (intro _; split <;> rfl)
+    rcases hop with rfl | ⟨item, rfl⟩ <;> simp [Mon.next, hrb, hst] <;> (intro _; split <;> rfl)
   have mmust : (m.next op o).mustEvent = (m.mustEvent && !remoteRecreates (c.remote.getD {}) s i) := by
-    rcases hop with rfl | ⟨item, rfl⟩ <;> simp [Mon.next, hrb, hnb, hst]
-  have mheld : (m.next op o).held = if remoteRecreates (c.remote.getD {}) s i then m.held.map (fun h => (h.1, false))
+    rcases hop with rfl | ⟨item, rfl⟩ <;> simp [Mon.next, hrb, hst]
+  have mheld : (m.next op o).held = if remoteNewBucket (c.remote.getD {}) s i then m.held.map (fun h => (h.1, false))
       else m.held := by
-    rcases hop with rfl | ⟨item, rfl⟩ <;> simp [Mon.next, hrb, hnb, hst]
-  have mtaint : (m.next op o).tainted = (m.tainted || (remoteRecreates (c.remote.getD {}) s i && m.held.any (·.2))) := by
-    rcases hop with rfl | ⟨item, rfl⟩ <;> simp [Mon.next, hrb, hnb, hst]
-  cases hrc : remoteRecreates (c.remote.getD {}) s i with
+    rcases hop with rfl | ⟨item, rfl⟩ <;> simp [Mon.next, hnb, hst]
+  cases hnw : remoteNewBucket (c.remote.getD {}) s i with
   | false =>
-    -- resized in place (or nothing at all): the remote wrapper existed, nothing moves
-    obtain ⟨g, hg1, hg2⟩ := remoteSync_norecreate hrc hrs hrr
+    -- the remote wrapper existed: the limiter object, its count and the wrapper's identity stay
     have hsome : c.remote.isSome = true := by
       cases hrm : c.remote with
-      | none => rw [hrm] at hg1; simp at hg1
       | some r => rfl
+      | none =>
+        exfalso
+        have : remoteRecreates ({} : Remote) s i = true := by simp [remoteRecreates]
+        simp [remoteNewBucket, hrm, this] at hnw
     have hfl : flightAfterSync c.fl c.remote.isNone false = c.fl := by
       have : c.remote.isNone = false := by cases hr : c.remote <;> simp [hr] at hsome ⊢
       simp [flightAfterSync, this]
-    rw [hrc] at mowed mmust mheld mtaint hcnt hfl'
-    simp only [Bool.false_eq_true, if_false, Bool.not_false, Bool.and_true, Bool.false_and, Bool.or_false] at mowed mmust mheld mtaint hcnt
+    rw [hnw] at mheld hfl'
+    simp only [Bool.false_eq_true, if_false] at mheld
     rw [hfl] at hfl'
     subst hfl'
-    have hgf : gfcOf st = some g := by
-      cases hrm : c.remote with
-      | none => rw [hrm] at hsome; cases hsome
-      | some r => rw [hrm] at hg1; simp [gfcOf, hcache, hrm]; exact hg1
+    obtain ⟨r, hrm⟩ : ∃ r, c.remote = some r := by
+      cases hr : c.remote with
+      | none => rw [hr] at hsome; cases hsome
+      | some r => exact ⟨r, rfl⟩
+    obtain ⟨_, _, g, _, _, q3, _⟩ := h5 r hrm
+    have hgf : gfcOf st = some g := by simp [gfcOf, hcache, hrm, q3]
     refine flInv_cache (c' := { c with remote := some r', cnt := cnt', fl := c.fl }) hi.fl hcache rfl rfl rfl rfl
-      (by simp [hsome]) ?_ ?_ ?_ mheld mtaint
-    · intro r hr
-      have : r = r' := by simpa using hr.symm
+      (by simp [hsome]) ?_ ?_ ?_ mheld
+    · intro r0 hr
+      have : r0 = r' := by simpa using hr.symm
       subst this; rw [mapp, happ]
     · intro w hw
       rw [mowed]
       have hw' : r'.fc = some (.tbw w) := by simpa [gfcOf] using hw
-      rcases hg2 with h | ⟨n, b, h⟩
-      · rw [h] at hw'
-        have : g = .tbw w := Option.some.inj hw'
-        subst this; exact hi.fl.owed w hgf
-      · rw [h] at hw'
-        cases g with
-        | tbw w0 =>
-          obtain ⟨w1, e1, e2⟩ := resize_tokenInflight w0 n b
-          rw [e1] at hw'
-          have : w1 = w := by simpa using hw'
-          subst this; rw [e2]; exact hi.fl.owed w0 hgf
-        | empty l => simp [GFC.resize] at hw'
-        | miw w0 => simp [GFC.resize] at hw'
+      cases hrc : remoteRecreates (c.remote.getD {}) s i with
+      | true =>
+        obtain ⟨g', hg1, hg2⟩ := remoteSync_recreate hrc hrs
+        rw [hg2] at hw'
+        have : g' = .tbw w := Option.some.inj hw'
+        subst this
+        simp only [if_true]
+        exact newGFC_tbw_fresh hg1
+      | false =>
+        obtain ⟨g0, hg1, hg2⟩ := remoteSync_norecreate hrc hrs hrr
+        have : g0 = g := by rw [hrm] at hg1; simp only [Option.getD_some] at hg1; rw [q3] at hg1; exact (Option.some.inj hg1).symm
+        subst this
+        simp only [Bool.false_eq_true, if_false]
+        rcases hg2 with h | ⟨n, b, h⟩
+        · rw [h] at hw'
+          have : g0 = .tbw w := Option.some.inj hw'
+          subst this; exact hi.fl.owed w hgf
+        · rw [h] at hw'
+          cases g0 with
+          | tbw w0 =>
+            obtain ⟨w1, e1, e2⟩ := resize_tokenInflight w0 n b
+            rw [e1] at hw'
+            have : w1 = w := by simpa using hw'
+            subst this; rw [e2]; exact hi.fl.owed w0 hgf
+          | empty l => simp [GFC.resize] at hw'
+          | miw w0 => simp [GFC.resize] at hw'
     · intro hm
       rw [mmust] at hm
-      obtain ⟨c0, g0, k1, k2, k3, k4⟩ := hi.fl.must hm
+      simp only [Bool.and_eq_true, Bool.not_eq_true'] at hm
+      obtain ⟨hm1, hrc⟩ := hm
+      rw [hrc] at hcnt
+      simp only [Bool.false_eq_true, if_false] at hcnt
+      obtain ⟨g0, hg1, hg2⟩ := remoteSync_norecreate hrc hrs hrr
+      have : g0 = g := by rw [hrm] at hg1; simp only [Option.getD_some] at hg1; rw [q3] at hg1; exact (Option.some.inj hg1).symm
+      subst this
+      obtain ⟨c0, g1, k1, k2, k3, k4⟩ := hi.fl.must hm1
       have : c0 = c := by rw [hcache] at k1; exact (Option.some.inj k1).symm
       subst this
-      have : g0 = g := by rw [hgf] at k2; exact (Option.some.inj k2).symm
+      have : g1 = g0 := by rw [hgf] at k2; exact (Option.some.inj k2).symm
       subst this
       rcases hg2 with h | ⟨n, b, h⟩
-      · exact ⟨g0, by simp [gfcOf, h], k3, by rw [hcnt]; exact k4⟩
-      · exact ⟨g0.resize n b, by simp [gfcOf, h], by rw [wkind_resize]; exact k3, by rw [hcnt]; exact k4⟩
+      · exact ⟨g1, by simp [gfcOf, h], k3, by rw [hcnt]; exact k4⟩
+      · exact ⟨g1.resize n b, by simp [gfcOf, h], by rw [wkind_resize]; exact k3, by rw [hcnt]; exact k4⟩
   | true =>
-    -- rebuilt: a new limiter with an empty bucket, a new counter
+    -- there was no remote wrapper: a new one with a new limiter, an empty bucket and a new counter
+    have hrm : c.remote = none := hnone hnw
+    have hrc : remoteRecreates (c.remote.getD {}) s i = true := by
+      simp only [remoteNewBucket, Bool.and_eq_true] at hnw; exact hnw.1
     obtain ⟨g', hg1, hg2⟩ := remoteSync_recreate hrc hrs
-    rw [hrc] at mowed mmust mheld mtaint hcnt hfl'
-    simp only [if_true, Bool.not_true, Bool.and_false, Bool.true_and] at mowed mmust mheld mtaint hcnt
+    rw [hrc] at mowed mmust hcnt
+    rw [hnw] at mheld hfl'
+    simp only [if_true, Bool.not_true, Bool.and_false] at mowed mmust mheld hcnt
+    have hfl2 : fl' = { c.fl with remOuter := c.fl.remOuter + 1, remInner := c.fl.remInner + 1, remCount := 0 } := by
+      rw [hfl', hrm]; simp [flightAfterSync]
     have hgens := hi.fl.gens c hcache
     have hflag : ∀ h ∈ st.handles, flagOf { c with remote := some r', cnt := cnt', fl := fl' } h = false := by
       intro h hh
       by_cases hside : h.side = .rem
       · have := hgens h hh hside
-        simp only [flagOf, hfl', flightAfterSync]
-        cases c.remote.isNone <;> simp <;> omega
+        simp only [flagOf, hfl2]
+        simp; omega
       · simp [flagOf, hside]
     refine ⟨hi.fl.cfgv, ?_, ?_, ?_, ?_, hi.fl.nodup, ?_, fun h => (by cases h), ?_⟩
     · intro x r hx hr
@@ -1946,38 +1997,22 @@ theorem flInv_sync {K : Kind} {cfg : Cfg} {st : State} {m : Mon} {c : Cache} {s 
       have : x = { c with remote := some r', cnt := cnt', fl := fl' } := by simpa using hx.symm
       subst this
       have := hgens h hh hside
-      simp only [hfl', flightAfterSync]
-      cases c.remote.isNone <;> simp <;> omega
-    · intro ht x hx
+      simp only [hfl2]
+      omega
+    · intro x hx
       have : x = { c with remote := some r', cnt := cnt', fl := fl' } := by simpa using hx.symm
       subst this
       refine ⟨?_, ?_⟩
-      · have hz : st.handles.countP (flagOf { c with remote := some r', cnt := cnt', fl := fl' }) = 0 := by
+      · intro _
+        have hz : st.handles.countP (flagOf { c with remote := some r', cnt := cnt', fl := fl' }) = 0 := by
           rw [List.countP_eq_zero]; intro h hh; simp [hflag h hh]
         rw [hz]
-        simp only [hfl', flightAfterSync]
-        cases c.remote.isNone <;> simp
+        simp [hfl2]
       · intro h hh hside hgen _
-        -- a request of the old limiter would have tainted the monitor: there is none
-        rw [mtaint] at ht
-        simp only [Bool.or_eq_false_iff] at ht
+        exfalso
         have hle := hgens h hh hside
-        cases hn : c.remote.isNone with
-        | true =>
-          exfalso
-          simp only [hfl', flightAfterSync, hn, if_true] at hgen
-          omega
-        | false =>
-          exfalso
-          have hsome : c.remote.isSome = true := by cases hr : c.remote <;> simp [hr] at hn ⊢
-          have hgen' : h.gen = c.fl.remOuter := by simpa [hfl', flightAfterSync, hn] using hgen
-          have hin := (hi.fl.cur ht.1 c hcache).2 h hh hside hgen' hsome
-          have hfl1 : flagOf c h = true := by simp [flagOf, hside, hgen', hin, hsome]
-          have hany : m.held.any (·.2) = true := by
-            rw [hi.fl.held, hcache]
-            simp only [heldOf, List.any_map, List.any_eq_true]
-            exact ⟨h, hh, hfl1⟩
-          rw [hany] at ht; cases ht.2
+        simp only [hfl2] at hgen
+        omega
 
 theorem step_reconcile {K : Kind} {cfg : Cfg} {st : State} {m : Mon} (hi : Inv K cfg st m) :
     StepOK K cfg st m .reconcileCount := by
@@ -2003,7 +2038,7 @@ theorem step_reconcile {K : Kind} {cfg : Cfg} {st : State} {m : Mon} (hi : Inv K
           obtain ⟨cnt', hcnt'⟩ : ∃ x : Counter, x = (if remoteRecreates (c.remote.getD {}) s
               { strategy := Strategy.count, mi := s.gmi, tb := s.gtb }
               then { event := false, lastSync := unixS st.clock } else c.cnt) := ⟨_, rfl⟩
-          obtain ⟨fl', hfl'⟩ : ∃ x : Flight, x = flightAfterSync c.fl c.remote.isNone (remoteRecreates (c.remote.getD {}) s
+          obtain ⟨fl', hfl'⟩ : ∃ x : Flight, x = flightAfterSync c.fl c.remote.isNone (remoteNewBucket (c.remote.getD {}) s
               { strategy := Strategy.count, mi := s.gmi, tb := s.gtb }) := ⟨_, rfl⟩
           obtain ⟨r', g', e1, e2, e3, e4, e5⟩ := inv_of_sync hi hcache hsch
             { strategy := s.strategy, mi := s.gmi, tb := s.gtb } (VS_globalItem h2) cnt' fl'
@@ -2065,7 +2100,7 @@ theorem step_answer {K : Kind} {cfg : Cfg} {st : State} {m : Mon} (hi : Inv K cf
           obtain ⟨cnt', hcnt'⟩ : ∃ x : Counter, x = (if remoteRecreates (c.remote.getD {}) s item
               then { event := false, lastSync := unixS st.clock } else c.cnt) := ⟨_, rfl⟩
           obtain ⟨fl', hfl'⟩ : ∃ x : Flight, x = flightAfterSync c.fl c.remote.isNone
-              (remoteRecreates (c.remote.getD {}) s item) := ⟨_, rfl⟩
+              (remoteNewBucket (c.remote.getD {}) s item) := ⟨_, rfl⟩
           obtain ⟨r', g', e1, e2, e3, e4, e5⟩ := inv_of_sync hi hcache hsch item (by rw [hty]; exact VS_guess h2) cnt' fl'
           have hg : gfcOf { st with cache := some { c with remote := some r', cnt := cnt', fl := fl' } } = some g' := by
             simp [gfcOf, e2]
@@ -2148,7 +2183,7 @@ theorem inv_of_setLimit {K : Kind} {cfg : Cfg} {st : State} {m : Mon} {c : Cache
     have hrb : rebuilds m (.setLimit r) = false := by simp [rebuilds, effective]
     have hnb : newBucket m (.setLimit r) = false := by simp [newBucket, hrb]
     refine flInv_cache (c' := { c with remote := some { rm with fc := some g' } }) hi.fl hcache rfl rfl rfl rfl
-      (by simp [hrm]) ?_ ?_ ?_ (by simp [Mon.next, hrb, hnb, stopsRemote]) (by simp [Mon.next, hrb, hnb, stopsRemote])
+      (by simp [hrm]) ?_ ?_ ?_ (by simp [Mon.next, hrb, hnb, stopsRemote])
     · intro r0 hr0
       have : r0 = { rm with fc := some g' } := by simpa using hr0.symm
       subst this
@@ -2297,8 +2332,7 @@ theorem step_sync {K : Kind} {cfg : Cfg} {st : State} {m : Mon} (hi : Inv K cfg 
     · exact cntInv_frame hi.cnt hc (by simp [Mon.next]; exact hck.symm) (by simp [Mon.next, effective])
         (by simp [Mon.next])
     · exact flInv_frame hi.fl hc hhn hcv (by simp [Mon.next, effective]) (by simp [Mon.next, rebuilds, effective, stopsRemote])
-        (by simp [Mon.next, rebuilds, effective, stopsRemote]) (by simp [Mon.next, rebuilds, effective, stopsRemote])
-        (by simp [Mon.next, rebuilds, effective, stopsRemote])
+        (by simp [Mon.next, rebuilds, effective, stopsRemote]) (by simp [Mon.next, rebuilds, newBucket, effective, stopsRemote])
   cases fail with
   | true =>
     apply frame { st with clock := now } rfl rfl rfl rfl rfl rfl
@@ -2419,7 +2453,6 @@ theorem step_event {K : Kind} {cfg : Cfg} {st : State} {m : Mon} (hi : Inv K cfg
       · simp [Mon.next, hrb, hnb, stopsRemote]
       · simp [Mon.next, hi.prev, hw.1, hw.2, hmf]
       · simp [Mon.next, hrb, hnb, stopsRemote]
-      · simp [Mon.next, hrb, hnb, stopsRemote]
   have raised : ∀ c, st.cache = some c →
       step st .event = .ok { st with cache := some { c with cnt := { c.cnt with event := true } } } →
       StepOK K cfg st m .event := by
@@ -2443,7 +2476,7 @@ theorem step_event {K : Kind} {cfg : Cfg} {st : State} {m : Mon} (hi : Inv K cfg
         simp [Mon.next, effective]; exact hi.cnt.contact c hcache
       · intro x hx _; simp [Mon.next]
     · refine flInv_cache (c' := { c with cnt := { c.cnt with event := true } }) hi.fl hcache rfl rfl rfl rfl rfl ?_ ?_ ?_
-        (by simp [Mon.next, hrb, hnb, stopsRemote]) (by simp [Mon.next, hrb, hnb, stopsRemote])
+        (by simp [Mon.next, hrb, hnb, stopsRemote])
       · intro r hr; simp only [Mon.next, effective, Bool.false_eq_true, if_false]; exact hi.fl.applied c r hcache hr
       · intro w hw
         have hw' : gfcOf st = some (.tbw w) := by simpa [gfcOf, hcache] using hw
@@ -2615,7 +2648,6 @@ theorem step_tick {K : Kind} {cfg : Cfg} {st : State} {m : Mon} (hi : Inv K cfg 
         · simp [Mon.next, hrb, hnb, stopsRemote, hprev, observe_wkind0 hg0]
         · simp [Mon.next, hmf]
         · simp [Mon.next, hrb, hnb, stopsRemote]
-        · simp [Mon.next, hrb, hnb, stopsRemote]
     · simp [judgeTrans, judgeTick, judgeDemand, hprev, observe_wkind0 hg0, observe_req]
   | some c =>
     have hc := hi.cache
@@ -2686,7 +2718,7 @@ theorem step_tick {K : Kind} {cfg : Cfg} {st : State} {m : Mon} (hi : Inv K cfg 
             subst this
             simp at he
         · refine flInv_cache (c' := { c with cnt := { c.cnt with event := false } }) hi.fl hcache rfl rfl rfl rfl rfl
-            ?_ ?_ ?_ (by simp [Mon.next, hrb, hnb, stopsRemote]) (by simp [Mon.next, hrb, hnb, stopsRemote])
+            ?_ ?_ ?_ (by simp [Mon.next, hrb, hnb, stopsRemote])
           · intro r hr; simp only [Mon.next, effective, Bool.false_eq_true, if_false]; exact hi.fl.applied c r hcache hr
           · intro w hw
             have hw' : gfcOf st = some (.tbw w) := by simpa [gfcOf, hcache, tickQuiet] using hw
@@ -2774,7 +2806,6 @@ theorem step_tick {K : Kind} {cfg : Cfg} {st : State} {m : Mon} (hi : Inv K cfg 
                 simp at he
             · refine flInv_cache (c' := { c with remote := some { rm with fc := some (g.addAcquiring hits) }, cnt := { c.cnt with event := false } })
                 hi.fl hcache rfl rfl rfl rfl (by simp [hrm]) ?_ ?_ ?_ (by simp [Mon.next, hrb, hnb, stopsRemote])
-                (by simp [Mon.next, hrb, hnb, stopsRemote])
               · intro r0 hr0
                 have : r0 = { rm with fc := some (g.addAcquiring hits) } := by simpa using hr0.symm
                 subst this
@@ -2841,7 +2872,6 @@ theorem step_tick {K : Kind} {cfg : Cfg} {st : State} {m : Mon} (hi : Inv K cfg 
                   simp at he
               · refine flInv_cache (c' := { c with remote := some { rm with fc := some g' }, cnt := { event := false, lastSync := unixS now } })
                   hi.fl hcache rfl rfl rfl rfl (by simp [hrm]) ?_ ?_ ?_ (by simp [Mon.next, hrb, hnb, stopsRemote])
-                  (by simp [Mon.next, hrb, hnb, stopsRemote])
                 · intro r0 hr0
                   have : r0 = { rm with fc := some g' } := by simpa using hr0.symm
                   subst this
@@ -3178,7 +3208,6 @@ theorem step_acquire {K : Kind} {cfg : Cfg} {st : State} {m : Mon} (hi : Inv K c
       · simp [Mon.next, hrb, hnb, hsr]
       · simp only [Mon.next, hrb, hnb, hsr, Bool.or_self, Bool.false_eq_true, if_false, observe_admitted]
         rw [if_neg hnot]
-      · simp [Mon.next, hrb, hnb, hsr]
     · simp only [judgeTrans, judgeAcquire, observe_admitted]
       rw [if_neg]
       intro h; exact hnot ⟨h.1, h.2.1⟩
@@ -3245,7 +3274,6 @@ theorem step_acquire {K : Kind} {cfg : Cfg} {st : State} {m : Mon} (hi : Inv K c
         · simp only [Mon.next, hrb, hnb, hsr, Bool.or_self, Bool.false_eq_true, if_false, observe_admitted, hnh, and_self,
             if_true, hch, hld, hflag]
           rfl
-        · simp [Mon.next, hrb, hnb, hsr]
       · simp only [judgeTrans, judgeAcquire, hch, hld]
         rw [if_neg]
         intro h; exact absurd h.2.2.1 (by decide)
@@ -3268,7 +3296,7 @@ theorem step_acquire {K : Kind} {cfg : Cfg} {st : State} {m : Mon} (hi : Inv K c
           subst hcnt' hev
           simp only [step, acquireStep, hheld, Bool.false_eq_true, if_false, hcv, hld, hcache, hbind, hadm, if_true]) rfl rfl rfl rfl rfl
         (Or.inr ⟨c, _, hcache, rfl, rfl, rfl, hcl⟩)
-      · refine flInv_cache (c' := { c with cnt := cnt' }) hi.fl hcache rfl rfl rfl rfl rfl ?_ ?_ ?_ ?_ ?_
+      · refine flInv_cache (c' := { c with cnt := cnt' }) hi.fl hcache rfl rfl rfl rfl rfl ?_ ?_ ?_ ?_
         · intro r hr; simp only [Mon.next, effective, Bool.false_eq_true, if_false]; exact hi.fl.applied c r hcache hr
         · intro w hw
           have hw' : gfcOf st = some (.tbw w) := by simpa [gfcOf, hcache] using hw
@@ -3283,7 +3311,6 @@ theorem step_acquire {K : Kind} {cfg : Cfg} {st : State} {m : Mon} (hi : Inv K c
           exact ⟨g0, by simpa [gfcOf, hcache] using k2, k3, hce k4⟩
         · simp only [Mon.next, hrb, hnb, hsr, Bool.or_self, Bool.false_eq_true, if_false, observe_admitted]
           rw [if_neg]; intro h; cases h.1
-        · simp [Mon.next, hrb, hnb, hsr]
       · simp only [judgeTrans, judgeAcquire, observe_admitted]
         rw [if_neg]; intro h; cases h.1
     | true =>
@@ -3314,11 +3341,10 @@ theorem step_acquire {K : Kind} {cfg : Cfg} {st : State} {m : Mon} (hi : Inv K c
         · simp only [Mon.next, hrb, hnb, hsr, Bool.or_self, Bool.false_eq_true, if_false, observe_admitted, hnh, and_self,
             if_true, hch, hld, hflag]
           rfl
-        · simp [Mon.next, hrb, hnb, hsr]
       · -- the in-flight clause: the bucket's count is the number of flagged handles, its size within the bound
         simp only [judgeTrans, judgeAcquire]
         rw [if_neg]
-        intro ⟨_, _, _, ht, hmi, hbad⟩
+        intro ⟨_, _, _, hmi, hbad⟩
         apply hbad
         have hob : g.unavail = false → m.ob = m.gs := by
           intro hu
@@ -3327,8 +3353,8 @@ theorem step_acquire {K : Kind} {cfg : Cfg} {st : State} {m : Mon} (hi : Inv K c
         have hleb := GInv_leb q6 q5 q4 (VS_kind h2) hob
         have hrl : m.prev.rlim = some g.inner := by rw [hprev, observe_rlim, hgf]; rfl
         rw [hrl] at hmi
-        obtain ⟨k1, _⟩ := hi.fl.cur ht c hcache
-        rw [hi.fl.held, hcache, heldOf_countP, ← k1]
+        obtain ⟨k1, _⟩ := hi.fl.cur c hcache
+        rw [hi.fl.held, hcache, heldOf_countP, ← k1 (by simp [hrm])]
         cases hin : g.inner with
         | exempt x => rw [hin] at hmi; simp [isMI] at hmi
         | tb q u => rw [hin] at hmi; simp [isMI] at hmi
@@ -3427,7 +3453,6 @@ theorem step_release {K : Kind} {cfg : Cfg} {st : State} {m : Mon} (hi : Inv K c
       · simp [Mon.next, hrb, hnb, hsr]
       · simp only [Mon.next, hrb, hnb, hsr, Bool.or_self, Bool.false_eq_true, if_false]
         rw [hi.fl.held, heldOf_filter, filter_id_self (find_none_notin hfind)]
-      · simp [Mon.next, hrb, hnb, hsr]
     · rfl
   | some h =>
   obtain ⟨hmem, _⟩ := find_mem hfind
@@ -3457,7 +3482,7 @@ theorem step_release {K : Kind} {cfg : Cfg} {st : State} {m : Mon} (hi : Inv K c
         c'.loc = c.loc → c'.remote = c.remote → c'.cnt.lastSync = c.cnt.lastSync →
         (c.cnt.event = true → c'.cnt.event = true) →
         c'.fl.remOuter = c.fl.remOuter → c'.fl.remInner = c.fl.remInner →
-        (m.tainted = false → c'.fl.remCount = c.fl.remCount - (if flagOf c h then 1 else 0)) →
+        (c'.fl.remCount = c.fl.remCount - (if flagOf c h then 1 else 0)) →
         StepOK K cfg st m (.release id) := by
       intro c' infl hs hloc hrem hls hev ho hn hcount
       apply stepOK_request hop hi
@@ -3477,34 +3502,32 @@ theorem step_release {K : Kind} {cfg : Cfg} {st : State} {m : Mon} (hi : Inv K c
         · simp [Mon.next, hrb, hnb, hsr]
         · simp [Mon.next, hrb, hnb, hsr]
         · simp only [Mon.next, hrb, hnb, hsr, Bool.or_self, Bool.false_eq_true, if_false]
-        · simp [Mon.next, hrb, hnb, hsr]
       · rfl
     cases hside : h.side with
     | dflt =>
       have hflag : flagOf c h = false := by simp [flagOf, hside]
       exact fin1 c st.inflight (by simp [releaseStep, hfind, hside, hcache]) rfl rfl rfl (fun x => x) rfl rfl
-        (fun _ => by rw [hflag]; simp)
+        (by rw [hflag]; simp)
     | loc =>
       have hflag : flagOf c h = false := by simp [flagOf, hside]
       by_cases hg : h.gen = c.fl.locGen
       · exact fin1 { c with fl := { c.fl with locCount := decCount c.fl.locCount } } (st.inflight - 1)
           (by simp [releaseStep, hfind, hside, hcache, hg]) rfl rfl rfl (fun x => x) rfl rfl
-          (fun _ => by rw [hflag]; simp)
+          (by rw [hflag]; simp)
       · exact fin1 c (st.inflight - 1) (by simp [releaseStep, hfind, hside, hcache, hg]) rfl rfl rfl (fun x => x) rfl rfl
-          (fun _ => by rw [hflag]; simp)
+          (by rw [hflag]; simp)
     | rem =>
       by_cases hg : h.gen = c.fl.remOuter ∧ c.remote.isSome = true
       · refine fin1 { c with fl := { c.fl with remCount := decCount c.fl.remCount },
                              cnt := if c.releaseEvent then { c.cnt with event := true } else c.cnt } (st.inflight - 1)
           (by simp [releaseStep, hfind, hside, hcache, hg]) rfl rfl (by simp only []; split <;> rfl)
           (fun x => by simp only []; split <;> simp [x]) rfl rfl ?_
-        intro ht
-        obtain ⟨k1, k2⟩ := hi.fl.cur ht c hcache
+        obtain ⟨k1, k2⟩ := hi.fl.cur c hcache
         have hin := k2 h hmem hside hg.1 hg.2
         have hflag : flagOf c h = true := by simp [flagOf, hside, hg.1, hg.2, hin]
         have hpos : 0 < st.handles.countP (flagOf c) := List.countP_pos_iff.2 ⟨h, hmem, hflag⟩
         simp only [hflag, if_true, decCount]
-        rw [k1]
+        rw [k1 hg.2]
         split <;> omega
       · have hflag : flagOf c h = false := by
           simp only [flagOf, hside]
@@ -3516,7 +3539,7 @@ theorem step_release {K : Kind} {cfg : Cfg} {st : State} {m : Mon} (hi : Inv K c
             simp [this]
           · simp [h1]
         exact fin1 c (st.inflight - 1) (by simp [releaseStep, hfind, hside, hcache, hg]) rfl rfl rfl (fun x => x) rfl rfl
-          (fun _ => by rw [hflag]; simp)
+          (by rw [hflag]; simp)
 
 /-- every operation allowed by `OpOK` runs without panic, preserves the invariant, and the judge accepts it -/
 theorem step_inv {K : Kind} {cfg : Cfg} {st : State} {m : Mon} {op : Op} (hi : Inv K cfg st m) (hop : OpOK K op) :
@@ -3682,5 +3705,180 @@ theorem inv_local {K : Kind} {cfg : Cfg} {st : State} {m : Mon} (hi : Inv K cfg 
     rw [hsch] at h
     obtain ⟨h1, h2, h3, _⟩ := h
     rw [h1]; exact ⟨h2, h3⟩
+
+/-! ## the schema's TYPE may change: an ordinary reconfiguration (the remote wrapper is stopped) -/
+
+theorem localSync_kind {K K' : Kind} {l : Local} {old s : Schema} (ho : VS K old) (hs : VS K' s) (hne : K ≠ K')
+    (hc : l.config = old) (hf : l.fc = some (limOf old)) :
+    localSync l s = .ok ({ config := s, fc := some (limOf s) }, true) ∧ localRecreates l s = true := by
+  obtain ⟨cfg0, fc0⟩ := l
+  simp only at hc hf
+  subst hc hf
+  have hsne : s ≠ cfg0 := by
+    intro e; subst e; exact hne ((VS_guess ho).symm.trans (VS_guess hs))
+  constructor
+  · unfold localSync
+    simp only [if_neg hsne, VS_limOf_kind ho, VS_guess hs]
+    rw [if_pos hne]
+    simp [VS_newLim hs, bind, Except.bind, pure, Except.pure]
+  · simp [localRecreates, hsne, VS_limOf_kind ho, VS_guess hs, hne]
+
+/-- with nothing cached the invariant does not depend on the type -/
+theorem inv_kind_none {K K' : Kind} {cfg : Cfg} {st : State} {m : Mon} (hi : Inv K cfg st m) (hn : st.cache = none) :
+    Inv K' cfg st m := by
+  refine ⟨hi.meter, hi.meterOK, hi.shards, hi.hb, hi.prev, hi.gsOK, hi.gsob, hi.obgs, ?_, hi.leader, hi.cnt, hi.fl⟩
+  have h := hi.cache
+  rw [hn] at h ⊢
+  unfold CInv at *
+  cases hs : m.schema with
+  | none => rw [hs] at h; exact h
+  | some s => rw [hs] at h; exact h.elim
+
+/-- a schema of ANOTHER type: new local limiter, the remote wrapper is stopped (no limiter of the old type is ever
+    handed out again), no request counts against a remote limiter any more -/
+theorem step_schema_kind {K K' : Kind} {cfg : Cfg} {st : State} {m : Mon} (hi : Inv K cfg st m) (s : Schema)
+    (hs : VS K' s) (hne : K ≠ K') (c : Cache) (hcache : st.cache = some c) :
+    ∃ st', step st (.schema s) = .ok st' ∧ Inv K' cfg st' (m.next (.schema s) (observe cfg st')) ∧
+      judgeTrans m (.schema s) (observe cfg st') = [] := by
+  have hc := hi.cache
+  unfold CInv at hc
+  cases hsch : m.schema with
+  | none => rw [hcache, hsch] at hc; exact hc.elim
+  | some old =>
+    rw [hcache, hsch] at hc
+    obtain ⟨h1, h2, h3, h4, h5⟩ := hc
+    obtain ⟨hls, hlr⟩ := localSync_kind h2 hs hne h1 h3
+    have hgne : guessType s ≠ guessType old := by
+      rw [VS_guess hs, VS_guess h2]; exact fun e => hne e.symm
+    have hsne : s ≠ old := fun e => hgne (by rw [e])
+    obtain ⟨c', hc'⟩ : ∃ c' : Cache, c' = { c with loc := { config := s, fc := some (limOf s) }, remote := none, fl := { c.fl with locGen := c.fl.locGen + 1, locCount := 0 } } := ⟨_, rfl⟩
+    have hrn : c'.remote = none := by rw [hc']
+    refine ⟨{ st with cache := some c' }, ?_, ?_, rfl⟩
+    · simp only [step, hcache, hls, hlr, hc']; rfl
+    · have hun := observe_unavail_noremote (cfg := cfg) (st := { st with cache := some c' }) rfl hrn
+      have hst : stopsRemote m (.schema s) = true := by simp [stopsRemote, hsch, hsne, hgne]
+      refine ⟨?_, hi.meterOK, ?_, ?_, rfl, ?_, ?_, ?_, ?_, ?_, ?_, ?_⟩
+      · simp [Mon.next]; exact hi.meter
+      · simp [Mon.next]; exact hi.shards
+      · simp [Mon.next, leaderChange]; exact hi.hb
+      · simp [Mon.next, effective]; exact hi.gsOK
+      · simp [Mon.next, effective, hun]; exact BLe.refl _
+      · intro _; simp [Mon.next, effective, hun]
+      · simp [CInv, Mon.next, hsch, hs, hsne, hgne, hc']
+      · simp [Mon.next, leaderChange]; exact hi.leader
+      · refine ⟨by simp [Mon.next]; exact hi.cnt.clock, by simp [Mon.next, effective]; exact hi.cnt.contact0, ?_, ?_⟩
+        · intro x hx
+          have : x = c' := by simpa using hx.symm
+          subst this
+          simp only [Mon.next, effective, Bool.false_eq_true, if_false]
+          rw [hc']; exact hi.cnt.contact c hcache
+        · intro x hx he
+          have : x = c' := by simpa using hx.symm
+          subst this
+          simp only [Mon.next, mayEventNext]
+          rw [hc'] at he; exact hi.cnt.may c hcache he
+      · refine ⟨hi.fl.cfgv, ?_, ?_, ?_, ?_, hi.fl.nodup, ?_, fun h => (by cases h), ?_⟩
+        · intro x r hx hr
+          have : x = c' := by simpa using hx.symm
+          subst this; rw [hrn] at hr; cases hr
+        · intro w hw; simp [gfcOf, hrn] at hw
+        · intro hm; simp [Mon.next, hst] at hm
+        · simp only [Mon.next, hst, Bool.or_true, if_true]
+          rw [hi.fl.held, hcache, heldOf_noremote (c := c') _ hrn]
+          simp [heldOf]
+        · intro x hx
+          have : x = c' := by simpa using hx.symm
+          subst this; rw [hc']; exact hi.fl.gens c hcache
+        · intro x hx
+          have : x = c' := by simpa using hx.symm
+          subst this
+          exact ⟨fun h => (by rw [hrn] at h; simp at h), fun h _ _ _ hr => (by rw [hrn] at hr; simp at hr)⟩
+
+/-- what the theorems require of an operation when the schema in force may be of ANY valid type -/
+def OpOK' : Op → Prop
+  | .schema s => ∃ K, VS K s
+  | .meter x => 0 < x.rateDen
+  | _ => True
+
+theorem opOK_of' {K : Kind} {op : Op} (h : OpOK' op) (hn : ∀ s, op ≠ .schema s) : OpOK K op := by
+  cases op with
+  | schema s => exact absurd rfl (hn s)
+  | meter x => exact h
+  | shards _ => trivial
+  | sync _ _ _ _ => trivial
+  | hb _ _ _ => trivial
+  | reconcileCount => trivial
+  | answer _ _ => trivial
+  | setLimit _ => trivial
+  | event => trivial
+  | acquire _ => trivial
+  | release _ => trivial
+  | tick _ _ => trivial
+
+/-- every operation — a schema of another type included — runs without panic, preserves the invariant (for the type of
+    the schema then in force), and the judge accepts it -/
+theorem step_inv' {K : Kind} {cfg : Cfg} {st : State} {m : Mon} {op : Op} (hi : Inv K cfg st m) (hop : OpOK' op) :
+    ∃ st' K', step st op = .ok st' ∧ Inv K' cfg st' (m.next op (observe cfg st')) ∧
+      judgeStep cfg m op (observe cfg st') = [] := by
+  by_cases hsc : ∃ s, op = .schema s
+  · obtain ⟨s, rfl⟩ := hsc
+    obtain ⟨K', hs⟩ := hop
+    by_cases hk : K = K'
+    · subst hk
+      obtain ⟨st', a, b, d⟩ := step_inv hi (op := .schema s) hs
+      exact ⟨st', K, a, b, d⟩
+    · cases hcache : st.cache with
+      | none =>
+        obtain ⟨st', a, b, d⟩ := step_inv (inv_kind_none (K' := K') hi hcache) (op := .schema s) hs
+        exact ⟨st', K', a, b, d⟩
+      | some c =>
+        obtain ⟨st', a, b, d⟩ := step_schema_kind hi s hs hk c hcache
+        exact ⟨st', K', a, b, by simp only [judgeStep, judgePost_ok b, d, List.append_nil]⟩
+  · obtain ⟨st', a, b, d⟩ := step_inv hi (opOK_of' (K := K) hop (fun s e => hsc ⟨s, e⟩))
+    exact ⟨st', K, a, b, d⟩
+
+theorem run_inv' {cfg : Cfg} : ∀ (ops : List Op) (K : Kind) (st : State) (m : Mon), Inv K cfg st m →
+    (∀ op ∈ ops, OpOK' op) →
+    (runFrom cfg st ops).2 = none ∧ (runFrom cfg st ops).1.length = ops.length ∧
+      allGood (judgeFrom cfg m ops (runFrom cfg st ops).1) = true := by
+  intro ops
+  induction ops with
+  | nil => intro K st m _ _; exact ⟨rfl, rfl, rfl⟩
+  | cons op ops ih =>
+    intro K st m hi hops
+    obtain ⟨st', K', h1, h2, h3⟩ := step_inv' hi (hops op (List.mem_cons_self ..))
+    obtain ⟨i1, i2, i3⟩ := ih K' st' _ h2 (fun o ho => hops o (List.mem_cons_of_mem _ ho))
+    simp only [runFrom, h1]
+    refine ⟨i1, by simp [i2], ?_⟩
+    simp only [judgeFrom, allGood, List.all_cons, h3, List.isEmpty_nil, Bool.true_and]
+    exact i3
+
+/-- … and every remote limiter ever observed is within any bound `G` of all the schemas' global limits -/
+theorem run_cap' {cfg : Cfg} {G : Bound} : ∀ (ops : List Op) (K : Kind) (st : State) (m : Mon), Inv K cfg st m →
+    MonLe m G → (∀ op ∈ ops, OpOK' op ∧ ∀ s, op = .schema s → BLe (globalOf s) G) →
+    ∀ o ∈ (runFrom cfg st ops).1, ∀ l, o.rlim = some l → Lim.leb l G = true := by
+  intro ops
+  induction ops with
+  | nil => intro K st m _ _ _ o ho; simp [runFrom] at ho
+  | cons op ops ih =>
+    intro K st m hi hm hops o ho l hl
+    obtain ⟨st', K', h1, h2, _⟩ := step_inv' hi (hops op (List.mem_cons_self ..)).1
+    have hm' := monLe_next hm op (observe cfg st') (hops op (List.mem_cons_self ..)).2
+    simp only [runFrom, h1, List.mem_cons] at ho
+    rcases ho with rfl | ho
+    · obtain ⟨a1, _, _⟩ := inv_rlim h2 hl
+      exact leb_mono a1 hm'.ob
+    · exact ih K' st' _ h2 hm' (fun x hx => hops x (List.mem_cons_of_mem _ hx)) o ho l hl
+
+theorem exec_inv' {cfg : Cfg} : ∀ (ops : List Op) (K : Kind) (st : State) (m : Mon), Inv K cfg st m →
+    (∀ op ∈ ops, OpOK' op) → ∃ st' m' K', exec st ops = some st' ∧ Inv K' cfg st' m' := by
+  intro ops
+  induction ops with
+  | nil => intro K st m hi _; exact ⟨st, m, K, rfl, hi⟩
+  | cons op ops ih =>
+    intro K st m hi hops
+    obtain ⟨st', K', h1, h2, _⟩ := step_inv' hi (hops op (List.mem_cons_self ..))
+    obtain ⟨st'', m'', K'', e1, e2⟩ := ih K' st' _ h2 (fun x hx => hops x (List.mem_cons_of_mem _ hx))
+    exact ⟨st'', m'', K'', by simp only [exec, h1]; exact e1, e2⟩
 
 end KG.Lemmas.RemoteLimiter
